@@ -109,7 +109,7 @@ pub fn roundtrip(ctx: &Ctx, rt: &tokio::runtime::Runtime, work: &Path, name: &st
 				ctx.violation(&format!("{cn}: declared tile format in the file differs"), &format!("{}: file declares {:?}, source {fname}", c.label, d.format), c.replay.clone());
 			}
 			for issue in &d.header_issues {
-				let class = if issue.contains("zoom levels") { "declared zoom range does not include the stored levels" } else if issue.contains("bounds") { "declared bounds do not fit the stored tiles" } else { "header counters contradict the directories" };
+				let class = if issue.contains("zoom levels") { "declared zoom range does not include the stored levels" } else if issue.contains("bounds") { "declared bounds do not fit the stored tiles" } else if issue.contains("clustered") { "'clustered' flag set although the tile data is not in tile-id order" } else { "header counters contradict the directories" };
 				ctx.violation(&format!("{cn}: header of the written file contradicts its tiles: {class}{gap}"), &format!("{}: {issue}", c.label), c.replay.clone());
 			}
 			if d.compression != Some(ct::comp_id(c.comp)) && !expected.is_empty() {
